@@ -21,6 +21,11 @@ that means (same version, exact value, in range / rejected exactly outside the r
 For `|`, `&`, `^` with a negative right operand the "mathematical result" is the infinite
 two's-complement one; `ibit` is that reading of an `Int` and `pyOr_bit/pyAnd_bit/pyXor_bit`
 prove the model's closed forms bit for bit.
+
+Second layer: Props/C14Deep.lean — shifts for every right operand (negative counts, addresses
+as counts, reflected `n << a`; `operators_exact_all`), `a += n`/`a -= n` statement by statement
+with an event log (`iadd_program`, `inplace_write_after_checks`), and the exact `hex()` string
+(`hex_exact`, `hex_unique`).
 -/
 import NetaddrVerif.Lemmas.C14L
 namespace NV.C14
